@@ -249,7 +249,7 @@ PROPS = {
             {"engine": "E2", "module": "lib", "harness": "h_sample_roundtrip", "msg_prefix": "C01", "functions": ["load_from_string", "A2lFile::write_to_string", "specification::*::parse / stringify of every element kind in the sample"],
              "bound": "the repository's own 340-line sample document (every element kind once): load, write, load, write (one concrete path)", "timeout": 600, "extra_modules": ["tokenizer"], "max_steps": 50000000},
             {"engine": "E2", "module": "lib", "harness": "h_ifdata_definitions", "msg_prefix": "C01", "functions": ["load_from_string", "tokenizer::handle_a2ml", "A2ml::stringify", "a2ml::GenericIfData::write", "A2lFile::write_to_string"],
-             "bound": "8 A2ML definitions x {conforming, deviating IF_DATA} x {LF, CRLF}: reload equal, second write identical", "timeout": 400, "extra_modules": ["tokenizer"]},
+             "bound": "12 A2ML definitions x {conforming, deviating IF_DATA} x {LF, CRLF}: reload equal, second write identical", "timeout": 400, "extra_modules": ["tokenizer"]},
         ] + [
             {"engine": "E2", "module": "lib", "harness": "h_every_element_roundtrip", "msg_prefix": "C01", "functions": ["load_from_string", "A2lFile::write_to_string", "specification::*::parse / stringify of every element of the grammar (203 of 205; generated document)", "generated PartialEq impls"],
              "bound": "one document generated from the DSL of the tree under check that holds every block and keyword valid at version 1.71 once (465 lines): strict load without diagnostics, write, reload equal (== and field by field), second write identical, every token kept", "timeout": 900, "extra_modules": ["tokenizer"], "max_steps": 300000000,
@@ -540,16 +540,16 @@ PROPS = {
     "C18": {
         "files": ["a2lfile/src/a2ml.rs", "a2lfile/src/ifdata.rs", "a2lfile/src/specification.rs", "a2lfile/src/lib.rs", "a2lfile/src/tokenizer.rs"],
         "trusted": T_STD,
-        "assumptions": ["eight A2ML definitions (struct with all scalar kinds / array / enum, taggedunion with block sequence, taggedstruct with repeated and optional members, arrays + 64 bit scalars, named struct reference, plain taggedunion, taggedunion nested in a struct, signed scalars) each with one conforming instance and one single-token deviation, LF and CRLF line ends; definition supplied in-file, and (LF only) as built-in specification",
+        "assumptions": ["twelve A2ML definitions (struct with all scalar kinds / array / enum, taggedunion with block sequence, taggedstruct with repeated and optional members, arrays + 64 bit scalars, named struct reference, plain taggedunion, taggedunion nested in a struct, signed scalars) each with one conforming instance and one single-token deviation, LF and CRLF line ends; definition supplied in-file, and (LF only) as built-in specification",
                         "'all A2ML definitions' is not claimed - the set is a fixed bounded family"],
         "jobs": [
             {"engine": "E2", "module": "lib", "harness": "h_ifdata_definitions", "msg_prefix": "C18", "functions": ["load_from_string", "tokenizer::handle_a2ml", "a2ml::parse_a2ml", "ifdata::parse_ifdata", "ifdata::parse_ifdata_from_spec", "ifdata::parse_ifdata_item", "ifdata::parse_ifdata_taggedstruct", "ifdata::parse_unknown_ifdata_start", "a2ml::GenericIfData::write", "A2lFile::ifdata_cleanup"],
-             "bound": "8 definitions x {conforming, deviating} x {LF, CRLF} (deviations incl. two members in a taggedunion; signed scalars in hex with the sign bit set)", "timeout": 400, "extra_modules": ["tokenizer"], "validate": 20},
+             "bound": "12 definitions x {conforming, deviating} x {LF, CRLF} (deviations incl. two members in a taggedunion; signed scalars in hex with the sign bit set; named enum with implicit values; nested structs and comments in the A2ML text; taggedstruct by reference; repeated block inside a block)", "timeout": 400, "extra_modules": ["tokenizer"], "validate": 20},
             {"engine": "E2", "module": "lib", "harness": "h_ifdata_cleanup_all_sites", "functions": ["A2lFile::ifdata_cleanup", "ifdata::remove_unknown_ifdata", "load_from_string", "A2lFile::write_to_string"],
              "bound": "the doubled every-element document (IF_DATA at every site of the grammar where it may stand, conforming and non-conforming blocks alternating): after ifdata_cleanup exactly the valid blocks remain", "timeout": 900, "extra_modules": ["tokenizer"], "max_steps": 1500000000,
              "must_cover": ["generated document and fingerprint module are in place", "IF_DATA of both kinds at many sites"]},
             {"engine": "E2", "module": "lib", "harness": "h_ifdata_builtin_spec", "functions": ["load_from_string (a2ml_spec argument)", "a2ml::parse_a2ml", "ifdata::parse_ifdata", "ifdata::parse_ifdata_from_spec", "A2lFile::ifdata_cleanup"],
-             "bound": "8 definitions supplied as built-in specification x {conforming, deviating} instance; an invalid built-in specification is an error", "timeout": 400, "extra_modules": ["tokenizer"], "must_cover": ["ifdata_builtin_spec_end"], "validate": 16},
+             "bound": "12 definitions supplied as built-in specification x {conforming, deviating} instance; an invalid built-in specification is an error", "timeout": 400, "extra_modules": ["tokenizer"], "must_cover": ["ifdata_builtin_spec_end"], "validate": 16},
             {"engine": "E2", "module": "lib", "harness": "h_ifdata_empty_sequence", "functions": ["ifdata::parse_ifdata_item"],
              "bound": "3 definitions whose sequence element can match zero tokens, one IF_DATA block: loading terminates", "timeout": 300, "extra_modules": ["tokenizer"], "max_steps": 600000},
         ],
